@@ -501,12 +501,79 @@ def rule_drop_is_error(ctx):
     ctx.floor(R, "error producers", n, 12)
 
 
+def eval_version_gate(ctx, R, fn):
+    """check_file_compiler_version by evaluation: the supported version is (5, 5, 5), the pragma's components range over
+    {4, 5, 6}^3, plus the file without a pragma: a version error exactly when the major differs or (minor, patch) is
+    larger; no pragma gives a warning and no error.  Returns True when decided."""
+    import itertools
+
+    import passeval
+    from finfun import NONE, S, Unsupported
+    from passeval import O, Panic, Sink
+
+    ERR = "parser/src/errors.rs"
+    try:
+        w = passeval.PassWorld([ERR, LIB], LIB)
+    except Exception:  # noqa: BLE001
+        return False
+    w.lenient_opaque = True
+    tys = [i["ty"].replace(" ", "") for i in fn["sig"]["inputs"]]
+    if tys != ["&Path", "Option<FileID>", "Option<Version>", "&Version"]:
+        return False
+    made = []
+
+    def new_report(name, args):
+        if name not in ("error", "warning", "info"):
+            return ("K", "Report::" + name, tuple(args))
+        r_ = ("O", "report:" + name, (("add_primary", ("PY", lambda *a: ("T", ()))), ("add_secondary", ("PY", lambda *a: ("T", ()))), ("add_note", ("PY", lambda *a: ("T", ())))))
+        made.append(r_)
+        return r_
+
+    w.opaque = (("Report::", new_report),)
+    wrong = []
+    n = 0
+    sup = ("T", (5, 5, 5))
+    path = O("file_path")
+    try:
+        for req in list(itertools.product((4, 5, 6), repeat=3)) + [None]:
+            del made[:]
+            res = w.call_fn(fn, [path, S("Some", O("file-id")), NONE if req is None else S("Some", ("T", req)), sup])
+            n += 1
+            kind = res[1] if isinstance(res, tuple) and len(res) > 2 and res[0] == "S" else "?"
+            if req is None:
+                items = res[2][0] if kind == "Ok" else None
+                items = list(items.items) if isinstance(items, Sink) else (list(items[1]) if isinstance(items, tuple) and items and items[0] == "L" else None)
+                if kind != "Ok" or not items or len(items) != 1 or not (isinstance(items[0], tuple) and str(items[0][1]).startswith("report:warning")):
+                    wrong.append("no pragma -> %s with %s (expected Ok with one warning)" % (kind, "?" if items is None else [x[1] if isinstance(x, tuple) else x for x in items]))
+                continue
+            want = "Ok" if (req[0] == 5 and (req[1] < 5 or (req[1] == 5 and req[2] <= 5))) else "Err"
+            if kind != want:
+                wrong.append("pragma %d.%d.%d against 5.5.5 -> %s (expected %s)" % (req + (kind, want)))
+            elif kind == "Err" and not (isinstance(res[2][0], tuple) and str(res[2][0][1]).startswith("report:error")):
+                wrong.append("pragma %d.%d.%d: the error is %r" % (req + (res[2][0],)))
+            elif kind == "Ok":
+                items = res[2][0]
+                items = list(items.items) if isinstance(items, Sink) else (list(items[1]) if isinstance(items, tuple) and items and items[0] == "L" else None)
+                if items:
+                    wrong.append("pragma %d.%d.%d: accepted with %d report(s)" % (req + (len(items),)))
+    except Unsupported as u:
+        ctx.note("check_file_compiler_version is outside the evaluator's subset (%s): the symbolic evaluation applies" % u)
+        return False
+    except Panic as p_:
+        wrong.append("panics (%s)" % p_)
+    ctx.floor(R, "version worlds evaluated", n, 28)
+    ctx.check(R, "check_file_compiler_version/gate", not wrong, "; ".join(wrong[:4]) or "28 worlds: error exactly when the major differs or (minor, patch) exceeds the supported one; without a pragma one warning", site(LIB, fn))
+    return True
+
+
 def rule_version_gate(ctx):
     R = "C02.8"
     ctx.rule(R, "a file is parsed without a version error exactly when its pragma's major version equals the supported one and its (minor, patch) is at most the supported one - decided by evaluating the gate over all 27 orderings of the three components")
     fn = find_fn(LIB, "check_file_compiler_version")
     if fn is None:
         return ctx.missing(R, "check_file_compiler_version")
+    if eval_version_gate(ctx, R, fn):
+        return
     from astlib import simplify_body
     import itertools
 
